@@ -349,7 +349,7 @@ impl MutationQuery {
                         //a new version is always dated after the version it replaces,
                         //even when the clock of this device is behind the clock of the device that wrote that version
                         let date = if old_node.mdate >= date {
-                            old_node.mdate + 1
+                            old_node.mdate.saturating_add(1)
                         } else {
                             date
                         };
